@@ -28,7 +28,7 @@ ASSUMPTIONS = [
 ]
 BUDGET = {"quick": 80, "thorough": 800}
 ROUNDS = {"thorough": 8}
-FLOORS = {"grid_point_on_a_coalescent_time": {"quick": 20, "thorough": 200}, "reparameterised_trees": {"quick": 20, "thorough": 200}, "batched_tree_checks": {"quick": 15, "thorough": 150}, "after_tree_change_checks": {"quick": 100, "thorough": 1000}, "batched_heights": {"quick": 30, "thorough": 300}, "quadratic_form_checks": {"quick": 300, "thorough": 3000}, "quadrature_checks": {"quick": 100, "thorough": 800},
+FLOORS = {"grid_point_on_a_coalescent_time": {"quick": 20, "thorough": 200}, "reparameterised_trees": {"quick": 20, "thorough": 200}, "batched_tree_checks": {"quick": 8, "thorough": 80}, "after_tree_change_checks": {"quick": 100, "thorough": 1000}, "batched_heights": {"quick": 30, "thorough": 300}, "quadratic_form_checks": {"quick": 300, "thorough": 3000}, "quadrature_checks": {"quick": 100, "thorough": 800},
           "statistics_checks": {"quick": 250, "thorough": 2500}, "variants": 4}
 
 KINDS = ["gmrf-quadratic", "gmrf-quadratic", "gmrf-integrated", "coalescent-integrated", "skyride-statistics", "skygrid-statistics", "skygrid-statistics"]
